@@ -27,6 +27,7 @@ def required : Op → Option (List Need)
   | .getBucketPolicy b => some [⟨b, .read, actGetBucketPolicy, []⟩]
   | .deleteBucketPolicy b => some [⟨b, .write, actDeleteBucketPolicy, []⟩]
   | .putBucketAcl b _ => some [⟨b, .writeAcp, actPutBucketAcl, []⟩]
+  | .putBucketAclGrants b _ => some [⟨b, .writeAcp, actPutBucketAcl, []⟩]
   | .getBucketAcl b => some [⟨b, .readAcp, actGetBucketAcl, []⟩]
   | .putBucketTagging b _ => some [⟨b, .write, actPutBucketTagging, []⟩]
   | .getBucketTagging b => some [⟨b, .read, actGetBucketTagging, []⟩]
@@ -115,6 +116,12 @@ theorem success_implies_granted (cfg : Cfg) (s : State) (w : Who) (now : Int) (o
     ∀ n ∈ needs, Granted cfg s w n := by
   cases op <;> simp only [required, Option.some.injEq, reduceCtorEq] at hreq <;> subst hreq <;> simp only [handle] at hok
   case putBucketAcl b a =>
+    obtain ⟨bk, hb, h⟩ := withBucket_ok _ _ _ hok
+    intro n hn; simp at hn; subst hn
+    split at h
+    · exact absurd h (errR_code_ne _)
+    · exact ⟨bk, hb, guarded_ok _ _ _ h⟩
+  case putBucketAclGrants b gs =>
     obtain ⟨bk, hb, h⟩ := withBucket_ok _ _ _ hok
     intro n hn; simp at hn; subst hn
     split at h
